@@ -1702,6 +1702,13 @@ func (x *c09Ctx) addrThrough(a ssa.Value) (string, ssa.Value) {
 // the argument bound to par is the result of an in-module constructor, i.e. a
 // call whose every returned value is a fresh allocation.
 func (x *c09Ctx) paramAlwaysFresh(fn *ssa.Function, par *ssa.Parameter) bool {
+	return x.paramFreshDepth(fn, par, 0)
+}
+
+func (x *c09Ctx) paramFreshDepth(fn *ssa.Function, par *ssa.Parameter, depth int) bool {
+	if depth > 3 {
+		return false
+	}
 	idx := -1
 	for i, p := range fn.Params {
 		if p == par {
@@ -1721,6 +1728,13 @@ func (x *c09Ctx) paramAlwaysFresh(fn *ssa.Function, par *ssa.Parameter) bool {
 			args := call.Common().Args
 			if idx >= len(args) {
 				return false
+			}
+			if pp, isPar := args[idx].(*ssa.Parameter); isPar {
+				// handed through a wrapper: the wrapper's callers decide
+				if !x.paramFreshDepth(caller, pp, depth+1) {
+					return false
+				}
+				continue
 			}
 			cv, ok := args[idx].(*ssa.Call)
 			if !ok {
